@@ -94,6 +94,9 @@ type interpreter struct {
 	panicNilError      types.Type             // *runtime.PanicNilError's element type (may be nil)
 	px                 *pathCtx               // gosx: symbolic state of the current path
 	sched              *sched                 // gosx: baton scheduler of the current path
+	mutable            []*ssa.Global          // gosx: globals that get a private copy per path
+	overlay            map[*ssa.Global]*value // gosx: this path's copies of the mutable globals
+	syncMaps           map[*value]*syncMapState
 }
 
 type deferred struct {
@@ -128,6 +131,9 @@ func (fr *frame) get(key ssa.Value) value {
 	case *ssa.Const:
 		return constValue(key)
 	case *ssa.Global:
+		if r, ok := fr.i.overlay[key]; ok {
+			return r
+		}
 		if r, ok := fr.i.globals[key]; ok {
 			return r
 		}
